@@ -354,7 +354,9 @@ static enum DeviceStatusCode vd_open(struct Driver* drv, uint64_t i, struct Devi
     if (i >= VM_NCAM + VM_NSTORE) return Device_Err;
     struct vm_dev* d = &VM.dev[i];
     logcall(d, VC_OPEN, 0);
-    if (VM.monitor && d->open) { char cl[96]; snprintf(cl, sizeof cl, "%s:open-while-open", P()); vs_fail(cl, "%s%d opened again while the previous instance is still open (never closed)", d->kind == 1 ? "vcam" : "vstore", d->idx); }
+    // an exclusive device: a second open while it is in use is refused (the property does not forbid the runtime to try, e.g. when
+    // one stream is configured with the device another stream still holds)
+    if (d->open) { vs_event(46); return Device_Err; }
     void* pg = mmap(0, 4096, PROT_READ | PROT_WRITE, MAP_PRIVATE | MAP_ANONYMOUS, -1, 0);
     if (pg == MAP_FAILED) return Device_Err;
     d->page = pg; d->page_bytes = 4096; d->open = 1; d->opens++; d->started = 0;
